@@ -116,6 +116,45 @@ fn validate_cases(b: &Base, r: Option<&LayoutRules>) -> Vec<Case> {
         p["segments"][2]["stop_ptr"] = hexu(bg - 1);
         push("output stop<begin".into(), "output-segment", p, b.log_trace);
     }
+    if b.layout == "dynamic" && b.pi.get("dynamic_params").map(|d| d.is_object()).unwrap_or(false) {
+        // dynamic layout: a builtin holds trace_length / row_ratio instances if its uses flag is set, none
+        // otherwise; every usage above that (or not a whole number of instances) must be rejected
+        const DYN: [(&str, usize, u64, &str, &str); 10] = [
+            ("pedersen", 3, 3, "uses_pedersen_builtin", "pedersen_builtin_row_ratio"),
+            ("range_check", 4, 1, "uses_range_check_builtin", "range_check_builtin_row_ratio"),
+            ("ecdsa", 5, 2, "uses_ecdsa_builtin", "ecdsa_builtin_row_ratio"),
+            ("bitwise", 6, 5, "uses_bitwise_builtin", "bitwise_row_ratio"),
+            ("ec_op", 7, 7, "uses_ec_op_builtin", "ec_op_builtin_row_ratio"),
+            ("keccak", 8, 16, "uses_keccak_builtin", "keccak_row_ratio"),
+            ("poseidon", 9, 6, "uses_poseidon_builtin", "poseidon_row_ratio"),
+            ("range_check96", 10, 1, "uses_range_check96_builtin", "range_check96_builtin_row_ratio"),
+            ("add_mod", 11, 7, "uses_add_mod_builtin", "add_mod_row_ratio"),
+            ("mul_mod", 12, 7, "uses_mul_mod_builtin", "mul_mod_row_ratio"),
+        ];
+        let dp = &b.pi["dynamic_params"];
+        for (name, seg, cells, flag, ratio) in DYN {
+            let on = dp[flag].as_u64().unwrap_or(0) == 1;
+            let rr = dp[ratio].as_u64().unwrap_or(0);
+            let copies: u64 = if on && rr > 0 && b.log_trace < 40 { (1u64 << b.log_trace) / rr } else { 0 };
+            let bg = get_u64(&b.pi["segments"][seg]["begin_addr"]);
+            let mut usages: Vec<(&str, i128, bool)> = vec![("copies+1", (copies as i128 + 1) * cells as i128, false), ("stop<begin", -1, false), ("1 instance, flag off, ratio 2", cells as i128, true)];
+            if cells > 1 {
+                usages.push(("non-multiple", copies as i128 * cells as i128 + 1, false));
+            }
+            for (tag, u, force_off) in usages {
+                let stop = bg as i128 + u;
+                if stop < 0 || (force_off && on) {
+                    continue;
+                }
+                let mut p = b.pi.clone();
+                p["segments"][seg]["stop_ptr"] = hexu(stop as u64);
+                if force_off {
+                    p["dynamic_params"][ratio] = json!(2);
+                }
+                push(format!("{} usage {}", name, tag), &format!("dyn-builtin-usage:{}", tag.split(',').next().unwrap().replace(' ', "-")), p, b.log_trace);
+            }
+        }
+    }
     if let Some(r) = r {
         for bt in &r.builtins {
             let bg = get_u64(&b.pi["segments"][bt.segment]["begin_addr"]);
@@ -285,7 +324,7 @@ fn judge_validate(rep: &mut Report, b: &Base, c: &Case) {
         None => {
             // dynamic layout: only the honest input (must be accepted) and deviations the
             // listed rules reject (must be rejected) are judged
-            let must_reject = matches!(c.class.as_str(), "log_n_steps" | "log_trace" | "segment-count" | "layout-code" | "output-segment")
+            let must_reject = matches!(c.class.as_str(), "log_n_steps" | "log_trace" | "segment-count" | "layout-code" | "output-segment") || c.class.starts_with("dyn-builtin-usage")
                 || (c.class == "range-check" && !c.desc.contains("min=max") && !c.desc.contains("max=65535") && !c.desc.contains("min=0"));
             rep.eval(&format!("validate-dynamic:{}:{}", if c.class == "none" { "honest" } else if must_reject { "invalid" } else { "unjudged" }, v.short()));
             if c.class == "none" && !v.accepted() {
